@@ -12,10 +12,53 @@ GET = {ST + "is_collecting": 0, ST + "is_finalizing": 1, ST + "is_dropping": 2}
 SET = {ST + "set_collecting": 0, ST + "set_finalizing": 1, ST + "set_dropping": 2}
 
 
+def flag_prims(F):
+    """npath -> ("get"|"set"|"replace", flag index) for every method of State whose body is a single Cell::get / set / replace on
+    one of the three phase cells - read from the bodies, so that an added accessor (e.g. `replace_dropping`) is a primitive too."""
+    c = getattr(F, "_flag_prims", None)
+    if c is not None:
+        return c
+    c = {}
+    for f in F.fns.values():
+        if not f.npath.startswith(ST) or f.kind == "closure":
+            continue
+        ops = []
+        for b in f.blocks:
+            t = b["term"]
+            if t["k"] == "call" and not t["callee"].get("indirect"):
+                ops.append(t["callee"]["path"].replace("core::", "std::"))
+        cells = [o for o in ops if o.startswith("std::cell::Cell::<T>::")]
+        if len(ops) != 1 or len(cells) != 1:
+            continue
+        kind = cells[0].rsplit("::", 1)[-1]
+        if kind not in ("get", "set", "replace"):
+            continue
+        # which field: the only place projected from self in the body
+        fld = None
+        for b in f.blocks:
+            for st in b["stmts"]:
+                if st["k"] == "assign" and st["rv"]["k"] in ("ref", "rawptr"):
+                    for e in st["rv"]["place"]["p"]:
+                        if isinstance(e, dict) and e.get("n") in FIELDS:
+                            fld = e["n"] if fld in (None, e["n"]) else "?"
+        if fld in FIELDS:
+            c[f.npath] = (kind, FIELDS[fld])
+    # the names the rest of the rule layer uses must agree with what the bodies do
+    for np, i in GET.items():
+        if np in c and c[np] != ("get", i):
+            del c[np]
+    for np, i in SET.items():
+        if np in c and c[np] != ("set", i):
+            del c[np]
+    F._flag_prims = c
+    return c
+
+
 def _site_of(e):
-    """(field index, site) if e is a (possibly negated/compared) read of a flag getter with site identity."""
-    if isinstance(e, tuple) and e and e[0] == "call" and e[1] in GET and len(e) > 3:
-        return GET[e[1]], e[3]
+    """(site,) if e is the value of a flag read with site identity: a getter call (ctx:bb) or the old value handed back by a
+    replace primitive (fn:bbN)."""
+    if isinstance(e, tuple) and e and e[0] in ("call", "ret") and len(e) > 3 and e[1].startswith(ST):
+        return None, e[3]
     return None
 
 
@@ -26,6 +69,7 @@ class FlagRun:
         self.S = S
         self.entry = tuple(entry_flags)
         self.states = {}   # node idx -> set of (flags tuple, slots frozenset)
+        self.prims = flag_prims(S.P.F)
         self._run()
 
     def _transfer_node(self, n, st):
@@ -33,13 +77,19 @@ class FlagRun:
         flags, slots = st
         if n.ci is not None and not n.inlined and n.ci["k"] == "call":
             np = n.ci["npath"]
-            if np in GET:
+            prim = self.prims.get(np)
+            if prim and prim[0] == "get":
                 site = "%d:%d" % (n.ctx.id, n.bb)
                 d = dict(slots)
-                d[site] = flags[GET[np]]
+                d[site] = flags[prim[1]]
                 return [(flags, frozenset(d.items()))]
-            if np in SET:
-                idx = SET[np]
+            if prim and prim[0] in ("set", "replace"):
+                idx = prim[1]
+                if prim[0] == "replace":
+                    d0 = dict(slots)
+                    d0["%s:bb%d" % (n.ctx.fn.npath, n.bb)] = flags[idx]      # the value handed back
+                    d0["%d:%d" % (n.ctx.id, n.bb)] = flags[idx]
+                    slots = frozenset(d0.items())
                 args = self.S.args_of(n)
                 v = args[1] if len(args) > 1 else None
                 vals = None
